@@ -13,6 +13,7 @@ theorem joinOpt_inner : joinOpt .inner = some (false, false, false) := by decide
 theorem joinOpt_left : joinOpt .left = some (false, true, false) := by decide
 theorem joinOpt_right : joinOpt .right = some (false, true, true) := by decide
 theorem joinOpt_full : joinOpt .full = some (true, false, false) := by decide
+theorem joinOpt_cross' : joinOpt .cross = some (true, false, false) := by decide
 
 theorem setOpOf_setOfKind (k : SetKind) (h : (setOpOf k).isSome = true) : setOpOf k = some (setOfKind k) := by
   cases k <;> simp [setOpOf, Generated.C06.setOps, SetKind.wire, List.lookup, setOfKind] at h ⊢
@@ -236,5 +237,371 @@ theorem evalFrom_alias_stmt (q : SqlSel) (name : String) (db : Db) (h : isStmtSq
     evalFrom (.alias q name) db =
       (evalOut q db).map (fun o => ⟨o.names.map (fun n => n.map (fun n => (name, n))), o.rows⟩) := by
   cases q <;> simp [isStmtSql] at h <;> simp [evalFrom]
+
+/-! ### the translation preserves the denotation -/
+
+/-- FROM-level correspondence: same rows, labels renamed by `phi` -/
+def relOf (srcs : Sources) (R : DRel) : SRel := ⟨R.labels.map (phi srcs), R.rows⟩
+
+theorem lookup_nontable (srcs : Sources) (hT : OnlyTables srcs = true) (s : Source) (hs : isTable s = false) :
+    srcs.lookup s = none := by
+  induction srcs with
+  | nil => rfl
+  | cons p rest ih =>
+    obtain ⟨k, v⟩ := p
+    simp only [OnlyTables, List.all_cons, Bool.and_eq_true] at hT
+    have hk : (s == k) = false := by
+      cases hsk : s == k with
+      | false => rfl
+      | true =>
+        have : s = k := by simpa using hsk
+        subst this
+        simp [hs] at hT
+    simp only [List.lookup, hk]
+    exact ih hT.2
+
+/-- the SELECT block the parser emits means what the query's clauses mean -/
+theorem clauses_run (cols : Cols) (labels : Labels) (items g : List SqlExpr) (whr hav : Option SqlExpr)
+    (o : List (SqlExpr × SortDir)) (sel grp : Features) (pre post : FeatureOpt) (ord : Orderings) (rows : Option Rows)
+    (h1 : items.map (evalS cols) = evsOf labels sel) (h1a : items.any (·.hasAgg) = hasAggFs sel)
+    (h2 : whr.map (evalS cols) = evOfOpt labels pre)
+    (h3 : g.map (evalS cols) = evsOf labels grp) (h3e : g.isEmpty = grp.isEmpty)
+    (h4 : hav.map (evalS cols) = evOfOpt labels post) (h4a : (hav.map (·.hasAgg)).getD false = hasAggFO post)
+    (h5 : o.map (fun e => (evalS cols e.1, e.2)) = evsOfOrd labels ord) (h5a : o.any (·.1.hasAgg) = hasAggOrd ord)
+    (w : Nat) (rs : List Row) :
+    runQuery (sqlClauses cols items whr g hav o (rowsOpts rows).1 (rowsOpts rows).2) w rs =
+      runQuery (dslClauses labels sel pre grp post ord rows) w rs := by
+  have base : ∀ (off lim : Option Int),
+      sqlClauses cols items whr g hav o lim off =
+        { dslClauses labels sel pre grp post ord rows with off := off, lim := lim } := by
+    intro off lim
+    simp only [sqlClauses, dslClauses, h1, h1a, h2, h3, h3e, h4, h4a, h5, h5a]
+  cases rows with
+  | none => rw [base]; rfl
+  | some p =>
+    obtain ⟨c, o'⟩ := p
+    rw [base]
+    by_cases h0 : o' = 0
+    · subst h0
+      simp only [rowsOpts, if_true]
+      exact (runQuery_off_zero { dslClauses labels sel pre grp post ord (some (c, 0)) with lim := some c } w rs).symm
+    · simp only [rowsOpts, if_neg h0]
+      rfl
+
+theorem filterRows_true {α : Type} (p : α → Option Val) (h : ∀ x, p x = some (.bool true)) :
+    ∀ (l : List α), filterRows p l = some l
+  | [] => rfl
+  | x :: xs => by
+    simp [filterRows, h x, truth, filterRows_true p h xs]
+
+theorem productRows_eq (l r : List Row) :
+    (l.flatMap (fun a => r.map (fun b => (a, b)))).map (fun p => p.1 ++ p.2) = productRows l r := by
+  simp [productRows, List.map_flatMap, List.map_map, Function.comp_def]
+
+/-- FULL JOIN ON TRUE is the product when both sides are empty or both are not -/
+theorem joinRows_true_balanced (l r : List Row) (wl wr : Nat) (on : Row → Option Val)
+    (hon : ∀ x, on x = some (.bool true)) (hb : l.isEmpty = r.isEmpty) :
+    joinRows l r wl wr on true true = some (productRows l r) := by
+  unfold joinRows
+  simp only [filterRows_true (fun (p : Row × Row) => on (p.1 ++ p.2)) (fun p => hon _), Option.pure_def,
+    Option.bind_eq_bind, Option.bind_some, if_true, productRows_eq]
+  cases l with
+  | nil =>
+    cases r with
+    | nil => simp [productRows]
+    | cons b bs => simp at hb
+  | cons a as =>
+    cases r with
+    | nil => simp at hb
+    | cons b bs =>
+      have hl : ((a :: as).filter (fun x => !((List.flatMap (fun a => List.map (fun b => (a, b)) (b :: bs)) (a :: as)).any (fun p => p.1 == x)))) = [] := by
+        rw [List.filter_eq_nil_iff]
+        intro x hx
+        simp only [Bool.not_eq_true, Bool.not_eq_false', List.any_eq_true]
+        refine ⟨(x, b), ?_, by simp⟩
+        simp only [List.mem_flatMap, List.mem_map]
+        exact ⟨x, hx, b, List.mem_cons_self .., rfl⟩
+      have hr : ((b :: bs).filter (fun x => !((List.flatMap (fun a => List.map (fun b => (a, b)) (b :: bs)) (a :: as)).any (fun p => p.2 == x)))) = [] := by
+        rw [List.filter_eq_nil_iff]
+        intro x hx
+        simp only [Bool.not_eq_true, Bool.not_eq_false', List.any_eq_true]
+        refine ⟨(a, x), ?_, by simp⟩
+        simp only [List.mem_flatMap, List.mem_map]
+        exact ⟨a, List.mem_cons_self .., x, hx, rfl⟩
+      rw [hl, hr]
+      simp
+
+theorem crossBalanced_of_noCross (srcs : Sources) (db : Db) : ∀ (s : Source), noCross s = true → crossBalanced srcs s db = true
+  | .table _ _, _ => rfl
+  | .ref inst _, h => by simpa [crossBalanced] using crossBalanced_of_noCross srcs db inst (by simpa [noCross] using h)
+  | .join l r k c, h => by
+    simp only [noCross, Bool.and_eq_true] at h
+    simp [crossBalanced, crossBalanced_of_noCross srcs db l h.1.2, crossBalanced_of_noCross srcs db r h.2, h.1.1]
+  | .set l r _, h => by
+    simp only [noCross, Bool.and_eq_true] at h
+    simp [crossBalanced, crossBalanced_of_noCross srcs db l h.1, crossBalanced_of_noCross srcs db r h.2]
+  | .query src _ _ _ _ _ _, h => by
+    simpa [crossBalanced] using crossBalanced_of_noCross srcs db src (by simpa [noCross] using h)
+
+mutual
+theorem from_spec (srcs : Sources) :
+    ∀ (s : Source), wfFrom srcs s = true → isOrigin s = true → InjOn srcs (leaves s) →
+      ∃ q, compile srcs s = some q ∧
+        ∀ db, crossBalanced srcs s db = true → evalFrom q db = (denoteFrom srcs s db).map (relOf srcs)
+  | .table n fields, hwf, _, _ => by
+    simp only [wfFrom] at hwf
+    obtain ⟨pn, hpn⟩ := Option.isSome_iff_exists.mp hwf
+    refine ⟨.table pn, by simp [compile, hpn], ?_⟩
+    intro db _
+    simp only [evalFrom, denoteFrom, hpn]
+    cases db.lookup pn with
+    | none => rfl
+    | some t =>
+      simp [relOf, phi, qualD, qual, hpn, Function.comp_def]
+  | .ref inst name, hwf, _, _ => by
+    cases inst with
+    | table n fields =>
+      simp only [wfFrom] at hwf
+      obtain ⟨pn, hpn⟩ := Option.isSome_iff_exists.mp hwf
+      refine ⟨.alias (.table pn) name, by simp [compile, hpn], ?_⟩
+      intro db _
+      simp only [evalFrom, denoteFrom, hpn]
+      cases db.lookup pn with
+      | none => rfl
+      | some t => simp [relOf, phi, qualD, qual, Function.comp_def]
+    | ref i2 n2 => simp [wfFrom] at hwf
+    | join a b k c => simp [wfFrom] at hwf
+    | set a b k =>
+      have hw : wfOut srcs (.set a b k) = true := by simpa [wfFrom] using hwf
+      obtain ⟨q, hq, hst, hev⟩ := out_spec srcs (.set a b k) hw
+      refine ⟨.alias q name, by rw [compile, hq]; rfl, ?_⟩
+      intro db hb
+      rw [evalFrom_alias_stmt q name db hst, hev db (by simpa [crossBalanced] using hb)]
+      simp only [denoteFrom]
+      cases denoteOut srcs (.set a b k) db with
+      | none => rfl
+      | some o =>
+        simp only [Option.map_some, relOf, List.map_map]
+        congr 2
+        apply List.map_congr_left
+        intro x _
+        cases x <;> simp [phi, qualD, qual]
+    | query a b c d e f g =>
+      have hw : wfOut srcs (.query a b c d e f g) = true := by simpa [wfFrom] using hwf
+      obtain ⟨q, hq, hst, hev⟩ := out_spec srcs (.query a b c d e f g) hw
+      refine ⟨.alias q name, by rw [compile, hq]; rfl, ?_⟩
+      intro db hb
+      rw [evalFrom_alias_stmt q name db hst, hev db (by simpa [crossBalanced] using hb)]
+      simp only [denoteFrom]
+      cases denoteOut srcs (.query a b c d e f g) db with
+      | none => rfl
+      | some o =>
+        simp only [Option.map_some, relOf, List.map_map]
+        congr 2
+        apply List.map_congr_left
+        intro x _
+        cases x <;> simp [phi, qualD, qual]
+  | .join l r k c, hwf, _, hinj => by
+    simp only [wfFrom, Bool.and_eq_true] at hwf
+    obtain ⟨⟨⟨⟨⟨hl, hr⟩, hol⟩, hor⟩, _⟩, hkc⟩ := hwf
+    simp only [leaves] at hinj
+    have hinjl : InjOn srcs (leaves l) := hinj.mono (fun a ha => List.mem_append.mpr (Or.inl ha))
+    have hinjr : InjOn srcs (leaves r) := hinj.mono (fun a ha => List.mem_append.mpr (Or.inr ha))
+    obtain ⟨L, hL, hevL⟩ := from_spec srcs l hl hol hinjl
+    obtain ⟨R, hR, hevR⟩ := from_spec srcs r hr hor hinjr
+    have hsplit : ∀ db, crossBalanced srcs (.join l r k c) db = true →
+        crossBalanced srcs l db = true ∧ crossBalanced srcs r db = true := by
+      intro db hb
+      simp only [crossBalanced, Bool.and_eq_true] at hb
+      exact ⟨hb.1.1, hb.1.2⟩
+    have hq : ∀ o ∈ leaves l ++ leaves r, (qual srcs o).isSome = true := by
+      intro o ho
+      rcases List.mem_append.mp ho with h | h
+      · exact leaves_qual_some srcs l hl hol o h
+      · exact leaves_qual_some srcs r hr hor o h
+    cases c with
+    | none =>
+      have hk : k = .cross := by cases k <;> simp at hkc <;> rfl
+      subst hk
+      refine ⟨.join L R (.lit (.bool true)) true false, by simp [compile, hL, hR, joinOpt_cross'], ?_⟩
+      intro db hb
+      obtain ⟨hbl, hbr⟩ := hsplit db hb
+      simp only [evalFrom, denoteFrom, hevL db hbl, hevR db hbr]
+      cases hdl : denoteFrom srcs l db with
+      | none => simp
+      | some A =>
+        cases hdr : denoteFrom srcs r db with
+        | none => simp
+        | some B =>
+          have hbal : A.rows.isEmpty = B.rows.isEmpty := by
+            simp only [crossBalanced, hdl, hdr, Bool.and_eq_true] at hb
+            simpa using hb.2
+          simp only [Option.map_some, relOf]
+          rw [show (true || false) = true from rfl,
+            joinRows_true_balanced A.rows B.rows _ _
+              (evalS (List.map (phi srcs) A.labels ++ List.map (phi srcs) B.labels) (SqlExpr.lit (Lit.bool true)) [])
+              (fun x => rfl) hbal]
+          simp
+    | some f =>
+      have hsf : supportedF (leaves l ++ leaves r) f = true := by cases k <;> simp at hkc <;> exact hkc
+      obtain ⟨on, hon⟩ := compileF_some srcs _ hq f hsf
+      -- meaning of the condition over either column order
+      have hcond : ∀ (A B : DRel), LabelsIn (A.labels ++ B.labels) (leaves l ++ leaves r) →
+          evalS ((relOf srcs A).cols ++ (relOf srcs B).cols) on [] = evalF (A.labels ++ B.labels) f [] := by
+        intro A B hin
+        have := evalS_compileF srcs _ (A.labels ++ B.labels) hinj hin f on hsf hon
+        simp only [relOf, ← List.map_append]
+        rw [this]
+      cases k with
+      | cross => simp at hkc
+      | inner =>
+        refine ⟨.join L R on false false, by simp [compile, hL, hR, hon, joinOpt_inner], ?_⟩
+        intro db hb
+        obtain ⟨hbl, hbr⟩ := hsplit db hb
+        simp only [evalFrom, denoteFrom, hevL db hbl, hevR db hbr]
+        cases hdl : denoteFrom srcs l db with
+        | none => simp
+        | some A =>
+          cases hdr : denoteFrom srcs r db with
+          | none => simp
+          | some B =>
+            have hin := ((denoteFrom_labels srcs db l A hdl).mono (big := leaves l ++ leaves r)
+              (fun a ha => List.mem_append.mpr (Or.inl ha))).append
+              ((denoteFrom_labels srcs db r B hdr).mono (big := leaves l ++ leaves r)
+              (fun a ha => List.mem_append.mpr (Or.inr ha)))
+            simp only [Option.map_some, hcond A B hin]
+            simp [relOf]
+            cases joinRows A.rows B.rows A.labels.length B.labels.length (evalF (A.labels ++ B.labels) f []) false false <;> simp [relOf]
+      | left =>
+        refine ⟨.join L R on false true, by simp [compile, hL, hR, hon, joinOpt_left], ?_⟩
+        intro db hb
+        obtain ⟨hbl, hbr⟩ := hsplit db hb
+        simp only [evalFrom, denoteFrom, hevL db hbl, hevR db hbr]
+        cases hdl : denoteFrom srcs l db with
+        | none => simp
+        | some A =>
+          cases hdr : denoteFrom srcs r db with
+          | none => simp
+          | some B =>
+            have hin := ((denoteFrom_labels srcs db l A hdl).mono (big := leaves l ++ leaves r)
+              (fun a ha => List.mem_append.mpr (Or.inl ha))).append
+              ((denoteFrom_labels srcs db r B hdr).mono (big := leaves l ++ leaves r)
+              (fun a ha => List.mem_append.mpr (Or.inr ha)))
+            simp only [Option.map_some, hcond A B hin]
+            simp [relOf]
+            cases joinRows A.rows B.rows A.labels.length B.labels.length (evalF (A.labels ++ B.labels) f []) true false <;> simp [relOf]
+      | right =>
+        refine ⟨.join R L on false true, by simp [compile, hL, hR, hon, joinOpt_right], ?_⟩
+        intro db hb
+        obtain ⟨hbl, hbr⟩ := hsplit db hb
+        simp only [evalFrom, denoteFrom, hevL db hbl, hevR db hbr]
+        cases hdl : denoteFrom srcs l db with
+        | none => cases denoteFrom srcs r db <;> simp
+        | some A =>
+          cases hdr : denoteFrom srcs r db with
+          | none => simp
+          | some B =>
+            have hin := ((denoteFrom_labels srcs db r B hdr).mono (big := leaves l ++ leaves r)
+              (fun a ha => List.mem_append.mpr (Or.inr ha))).append
+              ((denoteFrom_labels srcs db l A hdl).mono (big := leaves l ++ leaves r)
+              (fun a ha => List.mem_append.mpr (Or.inl ha)))
+            simp only [Option.map_some, hcond B A hin]
+            simp [relOf]
+            cases joinRows B.rows A.rows B.labels.length A.labels.length (evalF (B.labels ++ A.labels) f []) true false <;> simp [relOf]
+      | full =>
+        refine ⟨.join L R on true false, by simp [compile, hL, hR, hon, joinOpt_full], ?_⟩
+        intro db hb
+        obtain ⟨hbl, hbr⟩ := hsplit db hb
+        simp only [evalFrom, denoteFrom, hevL db hbl, hevR db hbr]
+        cases hdl : denoteFrom srcs l db with
+        | none => simp
+        | some A =>
+          cases hdr : denoteFrom srcs r db with
+          | none => simp
+          | some B =>
+            have hin := ((denoteFrom_labels srcs db l A hdl).mono (big := leaves l ++ leaves r)
+              (fun a ha => List.mem_append.mpr (Or.inl ha))).append
+              ((denoteFrom_labels srcs db r B hdr).mono (big := leaves l ++ leaves r)
+              (fun a ha => List.mem_append.mpr (Or.inr ha)))
+            simp only [Option.map_some, hcond A B hin]
+            simp [relOf]
+            cases joinRows A.rows B.rows A.labels.length B.labels.length (evalF (A.labels ++ B.labels) f []) true true <;> simp [relOf]
+  | .set _ _ _, _, ho, _ => by simp [isOrigin] at ho
+  | .query _ _ _ _ _ _ _, _, ho, _ => by simp [isOrigin] at ho
+theorem out_spec (srcs : Sources) :
+    ∀ (s : Source), wfOut srcs s = true →
+      ∃ q, compile srcs s = some q ∧ isStmtSql q = true ∧
+        ∀ db, crossBalanced srcs s db = true → evalOut q db = denoteOut srcs s db
+  | .set l r k, hwf => by
+    simp only [wfOut, Bool.and_eq_true] at hwf
+    obtain ⟨⟨hl, hr⟩, hk⟩ := hwf
+    obtain ⟨L, hL, _, hevL⟩ := out_spec srcs l hl
+    obtain ⟨R, hR, _, hevR⟩ := out_spec srcs r hr
+    refine ⟨.compound (setOfKind k) L R, by simp [compile, hL, hR, setOpOf_setOfKind k hk], rfl, ?_⟩
+    intro db hb
+    simp only [crossBalanced, Bool.and_eq_true] at hb
+    simp only [evalOut, denoteOut, hevL db hb.1, hevR db hb.2]
+    cases denoteOut srcs l db <;> cases denoteOut srcs r db <;> rfl
+  | .query src sel pre grp post ord rows, hwf => by
+    simp only [wfOut, Bool.and_eq_true] at hwf
+    obtain ⟨⟨⟨⟨⟨⟨⟨hfrom, horig⟩, hnodup⟩, hsel⟩, hpre⟩, hgrp⟩, hpost⟩, hord⟩ := hwf
+    have hinj : InjOn srcs (leaves src) := injOn_of_nodupB srcs _ hnodup
+    obtain ⟨frm, hfrm, hevF⟩ := from_spec srcs src hfrom horig hinj
+    have hq := leaves_qual_some srcs src hfrom horig
+    -- the projection as a list of features
+    have hselspec : ∃ sel' : Features,
+        (if sel.isEmpty then (originElems src).map elemFeatures else some sel) = some sel' ∧
+        supportedFs (leaves src) sel' = true ∧ sel'.isEmpty = false ∧
+        (if sel.isEmpty then compileElems srcs src else compileFs srcs sel) = compileFs srcs sel' := by
+      by_cases he : sel.isEmpty = true
+      · simp only [he, if_true] at hsel ⊢
+        cases hoe : originElems src with
+        | none => simp [hoe] at hsel
+        | some es =>
+          have hne : es.isEmpty = false := by simpa [hoe] using hsel
+          refine ⟨elemFeatures es, rfl, supportedFs_elemFeatures _ es (originElems_leaves src es hoe), ?_, ?_⟩
+          · rw [elemFeatures_isEmpty, hne]
+          · simp [compileElems, hoe, compileFs_elemFeatures]
+      · have he' : sel.isEmpty = false := by simpa using he
+        simp only [he', Bool.false_eq_true, if_false] at hsel ⊢
+        exact ⟨sel, rfl, hsel, he', rfl⟩
+    obtain ⟨sel', hsel'eq, hsel's, hsel'ne, hitems⟩ := hselspec
+    have hin0 : LabelsIn ([] : Labels) (leaves src) := fun _ _ h => by cases h
+    obtain ⟨items, hI, _, _, _, hIe⟩ := compileFs_spec srcs _ [] hinj hin0 hq sel' hsel's
+    obtain ⟨whr, hW, _, _⟩ := compileFO_spec srcs _ [] hinj hin0 hq pre hpre
+    obtain ⟨g, hG, _, _, _, _⟩ := compileFs_spec srcs _ [] hinj hin0 hq grp hgrp
+    obtain ⟨hav, hH, _, _⟩ := compileFO_spec srcs _ [] hinj hin0 hq post hpost
+    obtain ⟨o, hO, _, _⟩ := compileOrd_spec srcs _ [] hinj hin0 hq ord hord
+    have hne : items.isEmpty = false := by rw [hIe, hsel'ne]
+    refine ⟨.select items frm whr g hav o (rowsOpts rows).1 (rowsOpts rows).2, ?_, rfl, ?_⟩
+    · rw [compile]
+      simp only [hfrm, hW, hG, hH, hO, Option.pure_def, Option.bind_eq_bind, Option.bind_some]
+      have hne' : ¬ items = [] := by
+        intro h; subst h; simp at hne
+      by_cases he : sel.isEmpty = true
+      · simp only [he, if_true] at hitems ⊢
+        rw [hitems, hI]; simp [hne']
+      · have he' : sel.isEmpty = false := by simpa using he
+        simp only [he', Bool.false_eq_true, if_false] at hitems ⊢
+        rw [hitems, hI]; simp [hne']
+    · intro db hb
+      simp only [evalOut, denoteOut, hevF db (by simpa [crossBalanced] using hb), hsel'eq]
+      cases hd : denoteFrom srcs src db with
+      | none => rfl
+      | some R =>
+        have hin := denoteFrom_labels srcs db src R hd
+        obtain ⟨items', hI', h1, h1n, h1a, _⟩ := compileFs_spec srcs _ R.labels hinj hin hq sel' hsel's
+        obtain ⟨whr', hW', h2, _⟩ := compileFO_spec srcs _ R.labels hinj hin hq pre hpre
+        obtain ⟨g', hG', h3, _, _, h3e⟩ := compileFs_spec srcs _ R.labels hinj hin hq grp hgrp
+        obtain ⟨hav', hH', h4, h4a⟩ := compileFO_spec srcs _ R.labels hinj hin hq post hpost
+        obtain ⟨o', hO', h5, h5a⟩ := compileOrd_spec srcs _ R.labels hinj hin hq ord hord
+        rw [hI] at hI'; rw [hW] at hW'; rw [hG] at hG'; rw [hH] at hH'; rw [hO] at hO'
+        injection hI' with hI'; injection hW' with hW'; injection hG' with hG'; injection hH' with hH'
+        injection hO' with hO'
+        subst hI' hW' hG' hH' hO'
+        simp only [Option.map_some, relOf, hsel'ne, Bool.false_eq_true, if_false, List.length_map]
+        rw [clauses_run (R.labels.map (phi srcs)) R.labels items g whr hav o sel' grp pre post ord rows
+          h1 h1a h2 h3 h3e h4 h4a h5 h5a, h1n]
+end
 
 end ForML.C06
